@@ -1,8 +1,8 @@
 #!/verif/.venv/bin/python
 # Replay of a solver counterexample against the unmodified code (no shims).
-# property=C10 kernel=real_prev label=c10:phase_jump_gap_real_pulses
+# property=C10 kernel=step label=c10:phase_jump_gap
 import sys
 sys.path[:0] = ['/repo' + "/pulser-core", '/repo' + "/pulser-simulation", "/verif"]
 from symx.replay import replay
-sys.exit(replay(check='checks.c10', kernel='real_prev', shape={'prev': 'ramp00', 'det': 'const', 'proto1': 'min-delay', 'd1': 12},
-                assignment={'d0/k': 2, 'd2/k': 2, 'det1': '0/1', 'buf#1.start': 0, 'buf#1.end': 0, 'buf#2.start': 0, 'buf#2.end': 1, 'buf#5.start': 0, 'buf#5.end': 2, 'buf#6.start': 0, 'buf#6.end': 0}, label='c10:phase_jump_gap_real_pulses'))
+sys.exit(replay(check='checks.c10', kernel='step', shape={'own': {'clock': 4, 'local': True, 'slots': ['pulseA', 'target'], 'mod': False, 'pj': 'custom', 'targets_a': ['q0'], 'targets_b': ['q1']}, 'op': ['add_pulse', 'min-delay', 'B'], 'maxseq': False, 'nbarriers': 1},
+                assignment={'own.min_duration': 1, 'own.pjt': 77, 'own.min_retarget': 0, 'own.fixed_retarget': 1, 'own.s0.dur/k': 1, 'own.s1.dur/k': 1, 'new.dur/k': 1, 'barrier0': 77}, label='c10:phase_jump_gap'))
